@@ -54,4 +54,23 @@ CLAIMS = {
         'design_ref': 'DESIGN.md 4.2, 4.6, 5 (C17)',
         'note': TRUST,
     },
+    'C04': {
+        'technique': 'static analysis: tensor-leg / contraction-network typing of kernel bodies, sibling network comparison, call-site role rules',
+        'text': 'Every contraction kernel of operation.py is evaluated in a domain of contraction networks and compared '
+                'with the network of its docstring diagram (conjugation side, which W leg meets ket/bra, output leg '
+                'order); the left-, right- and local-Hamiltonian kernels are shown to be three openings of one closed '
+                'network (also the kernels no test calls directly); drivers put chi in the conjugated slot.  Holds for '
+                'all shapes and values because it is a statement about index wiring.  Numerical agreement is not decided.',
+        'design_ref': 'DESIGN.md 4.4, 5 (C04)',
+        'note': TRUST + '; reference networks transcribed from the docstrings',
+    },
+    'C14': {
+        'technique': 'static analysis: symbolic (affine) array shapes with interval reasoning over loop variables',
+        'text': 'On every return path of the Lanczos and Arnoldi iterations - including the early-termination returns that '
+                'the suite never takes - the output sizes are mutually consistent (len(alpha) = len(beta)+1 = V.shape[1], '
+                'H square of order V.shape[1]) for all numiter >= 1 and n >= 1; every index/slice is proved in bounds; both '
+                'consumers are re-checked against every producer return record.  The Krylov relations themselves are not decided.',
+        'design_ref': 'DESIGN.md 4.7, 5 (C14)',
+        'note': TRUST + '; assumes the callback maps a vector to a vector of the same length',
+    },
 }
